@@ -539,6 +539,20 @@ def m_add_dimension(ctx, o):
     ctx.geomdl('operations').add_dimension(o, inplace=True, offset=ctx.num('off'))
 
 
+def m_elem_ctrlpts(ctx, o):
+    """a contained shape is edited through its own public setter (the container is not told)"""
+    m_ctrlpts(ctx, list(o)[0])
+
+
+def m_elem_knot(ctx, o):
+    e = list(o)[0]
+    x = ctx.lit(Fraction(3, 8))
+    if e.pdimension == 1:
+        e.insert_knot(x)
+    else:
+        e.insert_knot(u=x)
+
+
 def m_add(ctx, o):
     kname = {1: 'CC', 2: 'SC', 3: 'VC'}[o.pdimension]
     o.add(_spline(ctx, KINDS[kname]['extra'], prefix='X', salt=2))
@@ -554,7 +568,7 @@ MUTATORS = {
     'insert_knot': m_insert_knot, 'insert_knot_v': m_insert_knot_v, 'insert_knot_w': m_insert_knot_w,
     'insert_knot_sym': m_insert_knot_sym, 'remove_knot': None, 'refine': m_refine, 'reverse': m_reverse,
     'transpose': m_transpose, 'flip': m_flip, 'translate': m_translate, 'rotate': m_rotate, 'scale': m_scale,
-    'add_dimension': m_add_dimension, 'add': m_add,
+    'add_dimension': m_add_dimension, 'add': m_add, 'elem_ctrlpts': m_elem_ctrlpts, 'elem_insert_knot': m_elem_knot,
 }
 # after these the new control points are linear combinations / contain cos, sin atoms (see _inv)
 LAZY_BBOX = ('insert_knot', 'insert_knot_v', 'insert_knot_w', 'insert_knot_sym', 'remove_knot', 'refine', 'rotate')
@@ -568,7 +582,7 @@ def _legal(kname, tier):
     """the public mutators of a class"""
     th = tier == 'thorough'
     if kname in CONTAINERS:
-        ms = ['add', 'delta', 'sample_size', 'translate'] + (['scale', 'rotate'] if th else [])
+        ms = ['add', 'delta', 'sample_size', 'translate', 'elem_ctrlpts', 'elem_insert_knot'] + (['scale', 'rotate'] if th else [])
         if kname != 'CC':
             ms += ['delta_u'] + (['sample_size_u'] if th or kname == 'SC' else []) + \
                   (['delta_v', 'sample_size_v'] if th else [])
